@@ -41,10 +41,10 @@ pub fn run_check(ctx: &Ctx, property: &'static str, oracles: Oracles, specs: Vec
     let mut runs = vec![];
     let n = specs.len().max(1);
     for (i, s) in specs.into_iter().enumerate() {
-        // each profile may use what is left of the check's wall budget (a cap hit is reported)
+        // profiles are listed smallest first; each gets an even share of what is left of the check's
+        // wall budget, so what a small profile does not use rolls over to the bigger ones after it
         let left = (total_wall - ctx.elapsed_s()).max(1.0);
-        let _ = (n, i);
-        let wall = left;
+        let wall = left / (n - i) as f64;
         let h = Hist::new(property, roots(&s.roots), s.alphabet, oracles.clone());
         let caps = Caps {
             max_depth: depth_override.unwrap_or(s.depth),
